@@ -241,7 +241,7 @@ func pluginStep(id string) string {
 
 // genFileTree builds trees of workflows referencing each other through foreach steps.
 func genFileTree(rt *rapid.T, pc *ParseCase, _ string) {
-	kind := rapid.SampledFrom([]string{"chain-ok", "missing", "self", "mutual", "nested-dir", "non-string-kind", "non-string-workflow", "absolute-missing", "dotdot", "shared", "empty-sub", "garbage-sub"}).Draw(rt, "treekind")
+	kind := rapid.SampledFrom([]string{"chain-ok", "missing", "self", "mutual", "nested-dir", "non-string-kind", "non-string-workflow", "absolute-missing", "dotdot", "shared", "empty-sub", "garbage-sub", "key-collision"}).Draw(rt, "treekind")
 	mainT := func(steps string) string {
 		return strings.Replace(fmt.Sprintf(subTemplate, steps, "done"), "k: {type: {type_id: string}}", "k: {type: {type_id: string}, required: false}", 1)
 	}
@@ -278,6 +278,13 @@ func genFileTree(rt *rapid.T, pc *ParseCase, _ string) {
 	case "self":
 		pc.Files["workflow.yaml"] = mainT(loopStep("l", "workflow.yaml"))
 		pc.ExpectParse = "error"
+	case "key-collision":
+		// a sub-workflow file whose name equals the key under which callers (the CLI, this harness)
+		// register the main workflow in the file cache: "workflow", or "config" / "input"
+		name := rapid.SampledFrom([]string{"workflow", "workflow", "config", "input"}).Draw(rt, "collision.name")
+		pc.Files["workflow.yaml"] = mainT(loopStep("l", name))
+		pc.Files[name] = leaf
+		pc.ExpectParse = "" // either a value or an error is fine; it must return
 	case "mutual":
 		pc.Files["workflow.yaml"] = mainT(loopStep("l", "a.yaml"))
 		pc.Files["a.yaml"] = fmt.Sprintf(subTemplate, loopStep("l", "b.yaml"), "done")
